@@ -40,6 +40,9 @@ Model/CmdFilter.vos Model/CmdFilter.vok Model/CmdFilter.required_vos: Model/CmdF
 Model/Cupcake.vo Model/Cupcake.glob Model/Cupcake.v.beautified Model/Cupcake.required_vo: Model/Cupcake.v Base/Bytes.vo Base/Endian.vo Base/Dec.vo Model/RespCodec.vo Model/Digest.vo Model/Lzf.vo Model/Rdb.vo Gen/Crc64.vo
 Model/Cupcake.vio: Model/Cupcake.v Base/Bytes.vio Base/Endian.vio Base/Dec.vio Model/RespCodec.vio Model/Digest.vio Model/Lzf.vio Model/Rdb.vio Gen/Crc64.vio
 Model/Cupcake.vos Model/Cupcake.vok Model/Cupcake.required_vos: Model/Cupcake.v Base/Bytes.vos Base/Endian.vos Base/Dec.vos Model/RespCodec.vos Model/Digest.vos Model/Lzf.vos Model/Rdb.vos Gen/Crc64.vos
+Model/Decode.vo Model/Decode.glob Model/Decode.v.beautified Model/Decode.required_vo: Model/Decode.v Base/Bytes.vo Base/Endian.vo Model/Rdb.vo Model/Cupcake.vo
+Model/Decode.vio: Model/Decode.v Base/Bytes.vio Base/Endian.vio Model/Rdb.vio Model/Cupcake.vio
+Model/Decode.vos Model/Decode.vok Model/Decode.required_vos: Model/Decode.v Base/Bytes.vos Base/Endian.vos Model/Rdb.vos Model/Cupcake.vos
 Model/Digest.vo Model/Digest.glob Model/Digest.v.beautified Model/Digest.required_vo: Model/Digest.v Base/Bytes.vo Base/Table.vo Base/Endian.vo Spec/Crc64.vo Gen/Crc64.vo
 Model/Digest.vio: Model/Digest.v Base/Bytes.vio Base/Table.vio Base/Endian.vio Spec/Crc64.vio Gen/Crc64.vio
 Model/Digest.vos Model/Digest.vok Model/Digest.required_vos: Model/Digest.v Base/Bytes.vos Base/Table.vos Base/Endian.vos Spec/Crc64.vos Gen/Crc64.vos
@@ -100,6 +103,9 @@ Proofs/Crc64Proofs.vos Proofs/Crc64Proofs.vok Proofs/Crc64Proofs.required_vos: P
 Proofs/CupcakeProofs.vo Proofs/CupcakeProofs.glob Proofs/CupcakeProofs.v.beautified Proofs/CupcakeProofs.required_vo: Proofs/CupcakeProofs.v Base/Bytes.vo Base/Endian.vo Base/Dec.vo Model/RespCodec.vo Model/Digest.vo Model/Lzf.vo Model/Rdb.vo Gen/Crc64.vo Spec/RdbFormat.vo Spec/Compact.vo Model/Cupcake.vo Proofs/RespProofs.vo Proofs/DigestProofs.vo Proofs/RdbProofs.vo
 Proofs/CupcakeProofs.vio: Proofs/CupcakeProofs.v Base/Bytes.vio Base/Endian.vio Base/Dec.vio Model/RespCodec.vio Model/Digest.vio Model/Lzf.vio Model/Rdb.vio Gen/Crc64.vio Spec/RdbFormat.vio Spec/Compact.vio Model/Cupcake.vio Proofs/RespProofs.vio Proofs/DigestProofs.vio Proofs/RdbProofs.vio
 Proofs/CupcakeProofs.vos Proofs/CupcakeProofs.vok Proofs/CupcakeProofs.required_vos: Proofs/CupcakeProofs.v Base/Bytes.vos Base/Endian.vos Base/Dec.vos Model/RespCodec.vos Model/Digest.vos Model/Lzf.vos Model/Rdb.vos Gen/Crc64.vos Spec/RdbFormat.vos Spec/Compact.vos Model/Cupcake.vos Proofs/RespProofs.vos Proofs/DigestProofs.vos Proofs/RdbProofs.vos
+Proofs/DecodeProofs.vo Proofs/DecodeProofs.glob Proofs/DecodeProofs.v.beautified Proofs/DecodeProofs.required_vo: Proofs/DecodeProofs.v Base/Bytes.vo Base/Endian.vo Model/Rdb.vo Model/Cupcake.vo Model/Decode.vo
+Proofs/DecodeProofs.vio: Proofs/DecodeProofs.v Base/Bytes.vio Base/Endian.vio Model/Rdb.vio Model/Cupcake.vio Model/Decode.vio
+Proofs/DecodeProofs.vos Proofs/DecodeProofs.vok Proofs/DecodeProofs.required_vos: Proofs/DecodeProofs.v Base/Bytes.vos Base/Endian.vos Model/Rdb.vos Model/Cupcake.vos Model/Decode.vos
 Proofs/DigestProofs.vo Proofs/DigestProofs.glob Proofs/DigestProofs.v.beautified Proofs/DigestProofs.required_vo: Proofs/DigestProofs.v Base/Bytes.vo Base/Table.vo Base/Endian.vo Spec/Crc64.vo Gen/Crc64.vo Model/Digest.vo Proofs/Crc64Proofs.vo
 Proofs/DigestProofs.vio: Proofs/DigestProofs.v Base/Bytes.vio Base/Table.vio Base/Endian.vio Spec/Crc64.vio Gen/Crc64.vio Model/Digest.vio Proofs/Crc64Proofs.vio
 Proofs/DigestProofs.vos Proofs/DigestProofs.vok Proofs/DigestProofs.required_vos: Proofs/DigestProofs.v Base/Bytes.vos Base/Table.vos Base/Endian.vos Spec/Crc64.vos Gen/Crc64.vos Model/Digest.vos Proofs/Crc64Proofs.vos
@@ -187,6 +193,9 @@ Props/C15.vos Props/C15.vok Props/C15.required_vos: Props/C15.v Base/Bytes.vos B
 Props/C16.vo Props/C16.glob Props/C16.v.beautified Props/C16.required_vo: Props/C16.v Base/Bytes.vo Model/Filter.vo Model/Rump.vo Model/Rdb.vo Model/Cupcake.vo Model/Restore.vo Proofs/RestoreProofs.vo Proofs/RumpProofs.vo
 Props/C16.vio: Props/C16.v Base/Bytes.vio Model/Filter.vio Model/Rump.vio Model/Rdb.vio Model/Cupcake.vio Model/Restore.vio Proofs/RestoreProofs.vio Proofs/RumpProofs.vio
 Props/C16.vos Props/C16.vok Props/C16.required_vos: Props/C16.v Base/Bytes.vos Model/Filter.vos Model/Rump.vos Model/Rdb.vos Model/Cupcake.vos Model/Restore.vos Proofs/RestoreProofs.vos Proofs/RumpProofs.vos
+Props/C17.vo Props/C17.glob Props/C17.v.beautified Props/C17.required_vo: Props/C17.v Base/Bytes.vo Model/Rdb.vo Model/Cupcake.vo Model/Decode.vo Proofs/DecodeProofs.vo
+Props/C17.vio: Props/C17.v Base/Bytes.vio Model/Rdb.vio Model/Cupcake.vio Model/Decode.vio Proofs/DecodeProofs.vio
+Props/C17.vos Props/C17.vok Props/C17.required_vos: Props/C17.v Base/Bytes.vos Model/Rdb.vos Model/Cupcake.vos Model/Decode.vos Proofs/DecodeProofs.vos
 Props/C18.vo Props/C18.glob Props/C18.v.beautified Props/C18.required_vo: Props/C18.v Base/Bytes.vo Model/Backlog.vo Proofs/BacklogProofs.vo
 Props/C18.vio: Props/C18.v Base/Bytes.vio Model/Backlog.vio Proofs/BacklogProofs.vio
 Props/C18.vos Props/C18.vok Props/C18.required_vos: Props/C18.v Base/Bytes.vos Model/Backlog.vos Proofs/BacklogProofs.vos
